@@ -2,6 +2,13 @@
    This file contains only the pinned statements; proofs live in spec/ and proofs/. *)
 From Coq Require Import NArith List.
 From MZ.spec Require Import Adler Crc.
+From Coq Require Import ZArith.
+From MZ.lib Require Import Mach Arr.
+From MZ.spec Require Import DeflateSpec Zlib.
+From MZ.model Require Import DeflateCore.
+From MZ.model Require InflateCore.
+From MZ.proofs Require Import StoredSpec StoredDeflate StoredDeflateReturns InflateStoredCheck.
+From MZ.proofs Require InflateBasic InflateStoredGen.
 Import ListNotations.
 Local Open Scope N_scope.
 
@@ -31,6 +38,59 @@ Example C16_vectors :
   adler32 1 [87; 105; 107; 105; 112; 101; 100; 105; 97] = 300286872 /\
   crc32 0 [49;50;51;52;53;54;55;56;57] = 3421780262.
 Proof. split; [exact adler_wikipedia | exact crc_check]. Qed.
+
+(* The running checksum exposed by a compressor, at level 0 (models; tied to the code by the correspondence runs of
+   C02/C14): after ANY schedule of deflate() calls (any chunks, output lengths and flushes) that has not ended the
+   stream, while the final block has not been written, the zlib compressor's adler32 field is the Adler-32 of
+   exactly the input consumed so far *)
+Theorem C16_level0_compressor_running_adler_partial :
+  forall (data : list N) (flags wb : N) (sched : list (N * N * N)) c rest acc n,
+  hasf flags FLAG_RAW = true -> wb <= 15 ->
+  Forall (fun it => legal_mz_flush (snd it)) sched ->
+  dreach (comp_new flags wb) data sched [] 0 = Some (c, rest, acc, n) ->
+  hasf flags FLAG_ZLIB = true -> c_finished c = false -> c_prev c = TOkay ->
+  c_adler c = adler32 1 (firstn (N.to_nat n) data) /\ n <= N.of_nat (length data).
+Proof. exact level0_running_adler. Qed.
+
+Example C16_compressor_running_adler_runs :
+  match dreach (comp_new 528384 15) (map (fun i => N.of_nat i mod 251) (seq 0 300)) [(100, 7, 0); (100, 50, 2)] [] 0 with
+  | Some (c, rest, acc, n) =>
+      c_finished c = false /\ c_prev c = TOkay /\ n = 200 /\
+      c_adler c = adler32 1 (firstn 200 (map (fun i => N.of_nat i mod 251) (seq 0 300)))
+  | None => False
+  end.
+Proof. vm_compute. repeat split; reflexivity. Qed.
+
+(* The running checksum exposed by a zlib decoder, on streams of stored blocks (model M_inf; tied to the code by the
+   correspondence runs of C03/C07): after ANY schedule of calls - any slicing of the input, and for every call any
+   output buffer (flat or ring), position and budget - whenever the accessor DecompressorOxide::adler32 reports a
+   value, it is the Adler-32 of exactly the bytes delivered so far (whatever the stream's own trailer says) *)
+Theorem C16_stored_streams_decoder_running_adler_partial :
+  forall flags cmf flg A chunks last extra (sched : list (list N * arr * N * N)) later,
+  InflateCore.has flags InflateCore.F_ZLIB = true -> InflateCore.has flags InflateCore.F_IGNORE = false ->
+  InflateCore.has flags InflateCore.F_STOPBB = false -> InflateCore.has flags InflateCore.F_MORE = true ->
+  cmf < 256 -> flg < 256 -> valid_header (Z.of_N cmf) (Z.of_N flg) = true -> A < 2 ^ 32 ->
+  chunks_ok chunks -> bytes_ok last -> N.of_nat (length last) <= 65535 ->
+  let stream := [cmf; flg] ++ stored_stream chunks last ++ be32 A in
+  let offered := concat (map (fun it => fst (fst (fst it))) sched) in
+  offered ++ later = stream ++ extra ->
+  Forall (fun it : list N * arr * N * N => let '(piece, o, p, budget) := it in
+            InflateBasic.geometry_ok o p flags = true /\ alen o <= USIZE_MAX /\
+            (InflateCore.has flags InflateCore.F_NONWRAP = true \/
+             (InflateCore.has flags InflateCore.F_NONWRAP = false /\ 0 < alen o /\
+              (header_window (Z.of_N cmf) <= Z.of_N (alen o))%Z))) sched ->
+  N.of_nat (length offered) < 2 ^ 57 ->
+  exists d' acc,
+  feed3d flags InflateCore.dec_default [] sched [] = Ret (d', acc) /\
+  forall v, InflateCore.dec_adler32 d' = Some v -> v = adler32 1 acc.
+Proof. exact stored_stream_running_adler. Qed.
+
+Example C16_decoder_running_adler_runs :
+  match feed3d 7 InflateCore.dec_default [] [([120; 1; 1; 2; 0; 253], amake 8 0, 0, 8); ([255; 10; 20], amake 8 0, 0, 2)] [] with
+  | Ret (d', acc) => acc = [10; 20] /\ InflateCore.dec_adler32 d' = Some (adler32 1 [10; 20])
+  | _ => False
+  end.
+Proof. vm_compute. repeat split; reflexivity. Qed.
 
 Check C16_adler_compose :
   forall a xs ys, adler_valid a -> adler32 (adler32 a xs) ys = adler32 a (xs ++ ys).
